@@ -54,23 +54,20 @@ def applyTakerFee (amount : Int) (fee : Dec) (isAdd : Bool) : Option (Int × Int
   let newAmt := if isAdd then amount + feeAmt else amount - feeAmt
   if newAmt ≤ 0 ∨ feeAmt ≤ 0 then none else some (newAmt, feeAmt)
 
-/-- `BondingCurve.TokensForExactInAmount(currX, spendAmt)`; `none` = error -/
+/-- `BondingCurve.TokensForExactInAmount(currX, spendAmt)`; `none` = error.
+    startingX = ScaleFromBase(currX, 18), spendTokens = ScaleFromBase(spendAmt, L) -/
 def tokensForExactIn (T : Int → Int → Option Int) (L : Nat) (currX spendAmt : Int) : Option Int :=
-  let startingX := scaleFromBase currX 18
-  let spendTokens := scaleFromBase spendAmt L
-  if startingX.raw < decP then none
+  if (scaleFromBase currX 18).raw < decP then none
   else if spendAmt ≤ 0 then none
-  else match T startingX.raw spendTokens.raw with
+  else match T (scaleFromBase currX 18).raw (scaleFromBase spendAmt L).raw with
     | none => none
     | some x => some (scaleToBase ⟨x⟩ L)       -- scaled by the LIQUIDITY decimals, as the code does
 
 /-- the same with the result scaled by the supply decimals (18) — what the code should do (F5) -/
 def tokensForExactInFixed (T : Int → Int → Option Int) (L : Nat) (currX spendAmt : Int) : Option Int :=
-  let startingX := scaleFromBase currX 18
-  let spendTokens := scaleFromBase spendAmt L
-  if startingX.raw < decP then none
+  if (scaleFromBase currX 18).raw < decP then none
   else if spendAmt ≤ 0 then none
-  else match T startingX.raw spendTokens.raw with
+  else match T (scaleFromBase currX 18).raw (scaleFromBase spendAmt L).raw with
     | none => none
     | some x => some (scaleToBase ⟨x⟩ 18)
 
